@@ -144,6 +144,18 @@ fn main() {
                     std::process::exit(2);
                 }
             };
+            // the exploration runs in a child of its own: a subject that corrupts memory takes the
+            // in-process explorer down with it, and a process killed by a signal must still end in a
+            // verdict line and an evidence file
+            if std::env::var("VERIF_INNER").is_err() {
+                use std::os::unix::process::ExitStatusExt;
+                let t0 = std::time::Instant::now();
+                let st = std::process::Command::new(std::env::current_exe().expect("own path")).args(&args[1..]).env("VERIF_INNER", "1").status().expect("spawn self");
+                match (st.code(), st.signal()) {
+                    (Some(code), _) => std::process::exit(code),
+                    (None, sig) => engine::report_crash(c.id(), tier, &root(), sig.unwrap_or(0), t0.elapsed().as_secs_f64()),
+                }
+            }
             let run = Run::new(c.id(), tier, root());
             c.run(&run);
             let code = run.finish(c.as_ref());
